@@ -3,6 +3,8 @@ C17 — helper lemmas: calls that do not touch a path, prefixes of call sequence
 writes, `shutil.copyfile`, and the name constructions.
 -/
 import LimnoriaModel.C17.Model
+import LimnoriaModel.Gen.Writers
+import LimnoriaModel.C17.Flatfile
 namespace C17
 open Py
 
@@ -655,5 +657,138 @@ def callerOk (r : String × String × String × String × List String × Nat) : 
   (pos == "self.filename" || pos == "filename") &&
   (kw == "" || kw == "makeBackupIfSmaller=False") &&
   meths.all (fun m => ["close", "write", "writelines"].contains m) && meths.contains "close"
+
+/-! ### several files flushed in a row (`world.flush`) -/
+
+open List
+
+/-- the atomic write configured by `c` never touches the path `T` -/
+structure Indep (c : Cfg) (T : Path) : Prop where
+  f : c.filename ≠ T
+  t : tempName c ≠ T
+  b : backupName c ≠ T
+  s : siblingName c ≠ T
+
+theorem moveOps_safe_other (c : Cfg) (n : Nat) {T : Path} (h : Indep c T) : ∀ o ∈ moveOps c n, Safe T o := by
+  intro o ho
+  unfold moveOps at ho
+  split at ho
+  · rcases mem_singleton.mp ho with rfl; exact ⟨h.t, h.f⟩
+  · rcases mem_cons.mp ho with rfl | ho
+    · trivial
+    · rcases mem_append.mp ho with ho | ho
+      · exact copyOps_safe _ _ _ _ h.s o ho
+      · simp only [mem_cons, not_mem_nil, or_false] at ho
+        rcases ho with rfl | rfl
+        · exact ⟨h.s, h.f⟩
+        · exact h.t
+
+theorem closeTail_safe_other (c : Cfg) (fs : FS) {T : Path} (h : Indep c T) : ∀ o ∈ closeTail c fs, Safe T o := by
+  intro o ho
+  unfold closeTail at ho
+  simp only at ho
+  split at ho
+  · simp only [mem_append, mem_cons, not_mem_nil, or_false] at ho
+    rcases ho with (((rfl | rfl) | ho) | (rfl | rfl)) | ho
+    · trivial
+    · trivial
+    · split at ho
+      · cases ho
+      · rcases mem_cons.mp ho with rfl | ho
+        · trivial
+        · split at ho
+          · exact copyOps_safe _ _ _ _ h.b o ho
+          · cases ho
+    · exact h.f
+    · exact h.f
+    · exact moveOps_safe_other c _ h o ho
+  · simp only [mem_cons, not_mem_nil, or_false] at ho
+    rcases ho with rfl | rfl <;> trivial
+
+theorem flushOps_safe_other (c : Cfg) (ws : List (Bytes × Nat)) (fs : FS) {T : Path} (h : Indep c T) :
+    ∀ o ∈ flushOps c ws fs, Safe T o := by
+  intro o ho
+  unfold flushOps closeOps at ho
+  simp only at ho
+  rcases mem_append.mp ho with ho | ho
+  · exact pre_safe c ws h.t o ho
+  · rcases mem_cons.mp ho with rfl | ho
+    · exact h.t
+    · exact closeTail_safe_other c _ h o ho
+
+/-- the jobs of one `world.flush()` write pairwise independent files -/
+def Separate : List (Cfg × List (Bytes × Nat)) → Prop
+  | [] => True
+  | (c, _) :: js => (∀ j ∈ js, Indep c j.1.filename ∧ Indep j.1 c.filename) ∧ Separate js
+
+theorem multi_safe_other (js : List (Cfg × List (Bytes × Nat))) (fs : FS) {T : Path}
+    (h : ∀ j ∈ js, Indep j.1 T) : ∀ o ∈ multiOps fs js, Safe T o := by
+  induction js generalizing fs with
+  | nil => intro o ho; cases ho
+  | cons j js ih =>
+    obtain ⟨c, ws⟩ := j
+    intro o ho
+    unfold multiOps at ho
+    rcases mem_append.mp ho with ho | ho
+    · exact flushOps_safe_other c ws fs (h (c, ws) mem_cons_self) o ho
+    · exact ih _ (fun j hj => h j (mem_cons_of_mem _ hj)) o ho
+
+theorem multi_spec (js : List (Cfg × List (Bytes × Nat))) (fs : FS)
+    (hok : ∀ j ∈ js, Distinct j.1 ∧ 0 < j.1.copyBlock) (hsep : Separate js) :
+    ∀ j ∈ js, AllPre (fun s => Good (fs.disk j.1.filename) (newContent j.2) (s.disk j.1.filename)) fs
+      (multiOps fs js) := by
+  induction js generalizing fs with
+  | nil => intro j hj; cases hj
+  | cons j0 js ih =>
+    obtain ⟨c, ws⟩ := j0
+    intro j hj
+    unfold multiOps
+    rcases mem_cons.mp hj with rfl | hj'
+    · -- the file written first: its own flush, then untouched
+      have hc := hok (c, ws) mem_cons_self
+      have hsp := flush_spec c hc.1 hc.2 ws fs
+      refine allPre_append hsp.1 ?_
+      have hsafe := multi_safe_other js (run fs (flushOps c ws fs)) (T := c.filename)
+        (fun j hj => (hsep.1 j hj).2)
+      exact allPre_safe hsafe _ _ (allPre_final hsp.1)
+    · -- a file written later: untouched by the first flush
+      have hind : Indep c j.1.filename := (hsep.1 j hj').1
+      have hsafe := flushOps_safe_other c ws fs hind
+      refine allPre_append (allPre_safe hsafe fs _ good_old) ?_
+      have := ih (run fs (flushOps c ws fs)) (fun j hj => hok j (mem_cons_of_mem _ hj)) hsep.2 j hj'
+      rw [run_safe hsafe fs] at this
+      exact this
+
+/-- independence from the names: another file whose name is not `<this file>.<something>` -/
+theorem indep_of_names (c : Cfg) (h1 : TokenOk c.token) (h2 : TokenOk c.token2) (h4 : '/' ∉ c.now) {T : Path}
+    (hf : c.filename ≠ T) (hp : ∀ x, basename T ≠ basename c.filename ++ '.' :: x) : Indep c T := by
+  refine ⟨hf, ?_, ?_, ?_⟩
+  · intro e; have := basename_temp c h1; rw [e] at this; exact hp _ this
+  · intro e
+    have := basename_backup c h4
+    rw [e] at this
+    exact hp _ (by rw [this]; rfl)
+  · intro e; have := basename_sibling c h2; rw [e] at this; exact hp _ this
+
+/-! ### who writes files at all (checked on the generated inventory) -/
+
+/-- the places in src/ and plugins/__init__.py that open a file for writing without `AtomicFile`:
+(file, function, mode).  None of them is a flush of users / channels / networks / ignores / the
+registry: those in dbi.py are the record-level writers of `DirMapping` / `FlatfileMapping` (in place,
+by design), cdb / transaction keep journals, utils/file.py is AtomicFile itself. -/
+def knownDirectWriters : List (String × String × String) :=
+  [("src/cdb.py", "ReaderWriter._openFiles", "w"),
+   ("src/dbi.py", "DirMapping._setMax", "w"), ("src/dbi.py", "DirMapping.set", "w"),
+   ("src/dbi.py", "DirMapping.add", "w"), ("src/dbi.py", "FlatfileMapping._incrementCurrentId", "a"),
+   ("src/dbi.py", "FlatfileMapping.add", "r+"), ("src/dbi.py", "FlatfileMapping.set", "r+"),
+   ("src/dbi.py", "FlatfileMapping.remove", "r+"),
+   ("src/httpserver.py", "set_default_templates", "a"),
+   ("src/utils/file.py", "open_mkdir", "?"), ("src/utils/file.py", "touch", "w"),
+   ("src/utils/file.py", "AtomicFile.__init__", "?"), ("src/utils/file.py", "AtomicFile.close", "a"),
+   ("src/utils/transaction.py", "Transaction.__init__", "a"), ("src/utils/transaction.py", "Transaction.__init__", "w"),
+   ("src/utils/transaction.py", "Transaction.append", "a"), ("src/utils/transaction.py", "Rollback.rollbackAppend", "a"),
+   ("plugins/__init__.py", "PeriodicFileDownloader._downloadFile", "wb")]
+
+def anchoredFiles : List String := ["src/ircdb.py", "src/registry.py", "src/dbi.py"]
 
 end C17
